@@ -170,11 +170,13 @@ func runC03(c *core.Ctx) {
 	k := 0
 	for _, text := range []string{"required", "required|m_req", "required,to=1~3|m_r", "to=1~3|m_r,required|必_req", "phone|m_r", "to=2~3"} {
 		for _, shape := range []string{"absent", "empty", "nonempty", "dup-empty-first", "dup-empty-last", "absent-among-others", "no-query"} {
-			k++
-			if !c.Mine(k) {
-				continue
+			for _, keyName := range []string{"a", "ids[]", "姓名", "first name", "a+b"} {
+				k++
+				if !c.Mine(k) {
+					continue
+				}
+				c03Absent(res, text, shape, keyName)
 			}
-			c03Absent(res, text, shape)
 		}
 	}
 }
@@ -313,22 +315,24 @@ func compareCallCoarse(res *core.Result, sigPrefix string, out drive.Out, exps [
 	return true, false
 }
 
-func c03Absent(res *core.Result, text, shape string) {
-	rules := map[string]string{"a": text}
-	rm := valid.RM{"a": text}
+// keyName is the parameter / map key the rule is attached to (names that need percent-encoding in a
+// URL included).
+func c03Absent(res *core.Result, text, shape, keyName string) {
+	rules := map[string]string{keyName: text}
+	rm := valid.RM{keyName: text}
 	type kv struct{ k, v string }
 	var params []kv
 	switch shape {
 	case "absent":
 		params = []kv{{"b", "x"}}
 	case "empty":
-		params = []kv{{"a", ""}}
+		params = []kv{{keyName, ""}}
 	case "nonempty":
-		params = []kv{{"a", "ab"}}
+		params = []kv{{keyName, "ab"}}
 	case "dup-empty-first":
-		params = []kv{{"a", ""}, {"a", "ab"}}
+		params = []kv{{keyName, ""}, {keyName, "ab"}}
 	case "dup-empty-last":
-		params = []kv{{"a", "abcd"}, {"a", ""}}
+		params = []kv{{keyName, "abcd"}, {keyName, ""}}
 	case "absent-among-others":
 		params = []kv{{"b", "1"}, {"c", ""}, {"d", "a"}}
 	case "no-query":
@@ -352,7 +356,7 @@ func c03Absent(res *core.Result, text, shape string) {
 		env.ExpectFlat(entries, rules, func(k string) string { return k }, "", false, nil)
 		exps := env.Finish()
 		out := drive.Call(func() error { return valid.Url(u, rm) })
-		if judged, _ := compareCall(res, "C03|url-keys", shape, out, exps, false, env, true, vWitness{Entry: "Url", Value: u, Rules: rules}); judged {
+		if judged, _ := compareCall(res, "C03|url-keys", shape+c03KeyClass(keyName), out, exps, false, env, true, vWitness{Entry: "Url", Value: u, Rules: rules}); judged {
 			res.DistinctEnum(1)
 		}
 	}
@@ -376,9 +380,16 @@ func c03Absent(res *core.Result, text, shape string) {
 			env.ExpectFlat(entries, rules, func(k string) string { return prefix + "map[" + k + "]" }, prefix, true, nil)
 			exps := env.Finish()
 			out := drive.Call(func() error { return valid.Map(in, rm) })
-			if judged, _ := compareCall(res, "C03|map-keys", shape, out, exps, false, env, true, vWitness{Entry: "Map", Value: fmt.Sprint(in), Rules: rules}); judged {
+			if judged, _ := compareCall(res, "C03|map-keys", shape+c03KeyClass(keyName), out, exps, false, env, true, vWitness{Entry: "Map", Value: fmt.Sprint(in), Rules: rules}); judged {
 				res.DistinctEnum(1)
 			}
 		}
 	}
+}
+
+func c03KeyClass(k string) string {
+	if k == "a" {
+		return ""
+	}
+	return "|key-needs-encoding"
 }
